@@ -56,7 +56,8 @@ def run_types():
                                                                            RATIO_STOCKS_UNTOUCHED=0.5)),
         "r_arg_base": dict(cc="ARG", preset="net_baseline", options=P["net_baseline"]),
         # (New Zealand: the one country the final round treats specially - a wider safety margin under its feed)
-        "r_nzl_nw": dict(cc="NZL", preset="net_nuclear_winter", options=dict(P["net_nuclear_winter"], NMONTHS=84)),
+        # (... run with Argentina's baseline options, so that the two can share one by-country call)
+        "r_nzl_base": dict(cc="NZL", preset="net_baseline", options=P["net_baseline"]),
         "r_dji_res": dict(cc="DJI", preset="net_nuclear_resilient", options=P["net_nuclear_resilient"]),
         "r_wor": dict(cc="WOR", preset="ms_worst", options=presets.to_global(P["ms_worst"])),
         "r_bad": dict(cc="ARG", preset="bad_option", options=bad),
